@@ -1,7 +1,24 @@
-(* impl_dispatch.ml — dispatch to the extracted structure-faithful model (Impl) *)
+(* impl_dispatch.ml — dispatch to the extracted structure-faithful models
+   (Impl.v, Kernels.v).  Result: Some string when a model exists. *)
 open Model
 open Util
 
+let res_z (r : z res) : string =
+  match r with Ok v -> string_of_int (int_of_z v) | Panic -> "PANIC" | OutOfFuel -> "OUTOFFUEL"
+
+let both a b = if a = b then a else a ^ "|" ^ b
+
 let impl (fn : string) (a : string array) : string option =
-  ignore a; match fn with
+  let s i = bytes_of_hex a.(i) in
+  let n i = z_of_int (int_of_string a.(i)) in
+  match fn with
+  | "Compare" -> Some (both (res_z (i_compare_str (s 0) (s 1))) (res_z (i_compare_byt (s 0) (s 1))))
+  | "EqualFold" ->
+    let f r = match r with Ok v -> if int_of_z v = 0 then "1" else "0" | Panic -> "PANIC" | OutOfFuel -> "OUTOFFUEL" in
+    Some (both (f (i_compare_str (s 0) (s 1))) (f (i_compare_byt (s 0) (s 1))))
+  | "k.index_byte" -> Some (string_of_int (int_of_z (i_index_byte_generic (s 0) (n 1))))
+  | "k.count" ->
+    Some (both (string_of_int (int_of_z (i_count_generic (s 0) (n 1))))
+               (string_of_int (int_of_z (i_count_simd (s 0) (n 1)))))
+  | "k.index_non_ascii" -> Some (string_of_int (int_of_z (i_index_non_ascii_generic (s 0))))
   | _ -> None
